@@ -626,7 +626,8 @@ func TestEncodedSlashHandling(t *testing.T) {
 		// characters which Go's URL type does not regard as valid in an escaped path (it then re-creates the escaped
 		// form from the decoded one, which must not make the encoded slash disappear before heimdall looks at it)
 		if !strings.HasSuffix(path, "/") && rapid.IntRange(0, 3).Draw(t, "oddCharacter") == 0 {
-			path += rapid.SampledFrom([]string{"{x}", "|", "^", "a{"}).Draw(t, "odd")
+			// (among them bytes beyond ASCII sent as they are: "d\u00f6ner", not "d%C3%B6ner")
+			path += rapid.SampledFrom([]string{"{x}", "|", "^", "a{", "d\u00f6", "\u65e5\u672c", "\u00e9{", "\u00d7", "\u00a0b"}).Draw(t, "odd")
 			vkit.S.Label("slash.path_with_character_go_re_escapes")
 		}
 
